@@ -1,5 +1,6 @@
 import ast
 import pathlib
+import tokenize
 from typing import Set
 
 from executing import Source
@@ -102,12 +103,10 @@ def ensure_import(filename, imports, recorder: ChangeRecorder):
         position = start_of(tree.body[0].first_token)  # type: ignore
     else:
         last_token = last_import.last_token  # type: ignore
-        while True:
-            next_token = token.next_token(last_token)
-            if last_token.end[0] == next_token.end[0]:
-                last_token = next_token
-            else:
-                break
+        # the import is inserted behind the logical line of the last import,
+        # another statement can follow on this line (`import os; x = [`) and go on over several lines
+        while last_token.type not in (tokenize.NEWLINE, tokenize.ENDMARKER):
+            last_token = token.next_token(last_token)
         position = end_of(last_token)
 
     code = ""
